@@ -967,3 +967,31 @@ Proof.
   constructor; [|constructor]. split; [reflexivity|].
   constructor; [exact ex_hunk_wf | constructor].
 Qed.
+
+(* ------------------------------------------------------------------ *)
+(* the repair changes nothing for lines without trailing whitespace      *)
+
+Lemma trim_end_snoc_nl c : trim_end (c ++ [10]) = trim_end c.
+Proof.
+  unfold trim_end. rewrite rev_app_distr. cbn [rev app drop_ws].
+  change (ascii_ws 10) with true. reflexivity.
+Qed.
+
+Theorem fix_preserves_lines m c :
+  modif_line m = c ++ [10] -> trim_end c = c -> encode_modif_orig m = encode_modif m.
+Proof.
+  intros E Hc. rewrite (encode_modif_line _ _ E).
+  unfold encode_modif_orig. rewrite E, trim_end_snoc_nl, Hc. reflexivity.
+Qed.
+
+Theorem fix_preserves_hunks h body :
+  hline h = body ++ [10] -> trim_end body = body -> ~ In 10 body ->
+  Forall (fun m => exists c, modif_line m = c ++ [10] /\ trim_end c = c) (hlines h) ->
+  encode_hunk_orig h = encode_hunk h.
+Proof.
+  intros E Hb Hn HF. unfold encode_hunk_orig, encode_hunk.
+  rewrite E, trim_end_snoc_nl, Hb, trim_end_nl_snoc by exact Hn.
+  f_equal. f_equal.
+  induction HF as [|m l (c & Ec & Hc) _ IH]; cbn [flat_map]; [reflexivity|].
+  rewrite (fix_preserves_lines _ _ Ec Hc), IH. reflexivity.
+Qed.
